@@ -230,7 +230,7 @@ def run(ctx):
                         if k <= 1 and (ctx.thorough() or gi % 4 == 1):
                             for nl in (0, 1, 2):
                                 jobs.append((ctx.repo, D, shape, k, p, "multi", nl, gi, None))
-    for job, r in zip(jobs, ctx.pmap(worker, jobs)):
+    for job, r in ctx.pairs(worker, jobs):
         cfg = r["cfg"]
         g = cfg["g"]
         permutes = any(g[i][i] == 0 for i in range(cfg["D"]))
